@@ -27,6 +27,8 @@ import Martian.LexerLR
 import Martian.LexerLRCheck
 import Martian.LexerLRGen
 import Proofs.LexerLR
+import Proofs.LexerLRTables
+import Proofs.LexerLRFacts
 import Martian.LexerLRSem
 import Martian.LexerLRSites
 import Martian.Tokenizer
@@ -506,7 +508,7 @@ certificate the extractor computed from them (which states can lie below which
 on the stack; a rank of the states that every reduction lowers), pass the
 check.  Evaluated by the kernel: every (state, token) cell, every reduction
 with every possible exposed state. -/
-theorem lr_tables_checked : check genTables genCert = true := by decide +kernel
+theorem lr_tables_checked : check genTables genCert = true := gen_tables_checked
 
 /-- (a)–(d) for the parser as generated: memory safety, termination, progress
 of the error path (no state shifts `error`, so a syntax error ends the parse at
@@ -526,7 +528,7 @@ theorem lr_tables_well_chunked :
      wellChunked genTables.pgo && wellChunked genTables.r1 && wellChunked genTables.r2 &&
      wellChunked genTables.chk && wellChunked genTables.dfl && wellChunked genTables.tok1 &&
      wellChunked genTables.tok2 && wellChunked genTables.tok3 && wellChunked genCert.pred &&
-     wellChunked genCert.rank) = true := by decide +kernel
+     wellChunked genCert.rank) = true := gen_lr_tables_well_chunked
 
 /-- The scanner's SKIP, COMMENT and INVALID ids (and `$end`, `error`) are never
 shifted by any state: after an INVALID token the driver asks for no further
@@ -537,8 +539,7 @@ theorem lr_invalid_never_shifted :
         match lex1 genTables (Martian.Tokenizer.lookupId Gen.tokIds name : Nat) with
         | some tok => neverShifted genTables tok
         | none => false) &&
-      neverShifted genTables genTables.eofCode && neverShifted genTables genTables.errCode) = true := by
-  decide +kernel
+      neverShifted genTables genTables.eofCode && neverShifted genTables genTables.errCode) = true := gen_lr_invalid_never_shifted
 
 /-- the oracle is consulted only at the productions whose action contains a
 `return` (`Gen.mmFailProds`): even the oracle "every action aborts" cannot make
@@ -553,7 +554,7 @@ theorem lr_productions_match_tables :
     Gen.mmProdRhs.length = NP genTables ∧
     ((List.range Gen.mmProdRhs.length).all fun n =>
       n == 0 || ((prodRhs n).length : Int) == (genTables.r2.get? n).getD (-1)) = true ∧
-    (lhsPairs.all fun p => lhsPairs.all fun q => (p.1 == q.1) == (p.2 == q.2)) = true := by decide +kernel
+    (lhsPairs.all fun p => lhsPairs.all fun q => (p.1 == q.1) == (p.2 == q.2)) = true := gen_lr_productions_match_tables
 
 /-- The `mmDollar = mmS[mmpt-K : mmpt+1]` slice at the head of every action that
 uses `$i` takes exactly the right-hand side: K = `mmR2[n]` for every such
@@ -561,7 +562,7 @@ production, so the slice is in range whenever the reduction does not pop below
 the bottom of the stack (`lr_checker_sound`). -/
 theorem lr_dollar_slices_match :
     (Gen.mmDollarLen.all fun p => (genTables.r2.get? p.1) == some (p.2 : Int)) = true ∧
-    Gen.mmDollarLen.length > 0 := by decide +kernel
+    Gen.mmDollarLen.length > 0 := gen_lr_dollar_slices_match
 
 /-- Regenerated obligation on the CONVERSION CALL SITES: the calls of parseInt /
 parseFloat / tryParseFloat32 / unquote in the actions of grammar.go now are
@@ -573,7 +574,7 @@ or an `unquote` moved to another symbol, breaks this. -/
 theorem conversion_sites_pinned :
     (Gen.mmConvSites.map fun s => (prodLhs s.1, s.2.1, siteSymbol s)) = expectedSites ∧
     (Gen.mmConvSites.all fun s => siteSymbol s == wants s.2.1 &&
-      ["parseInt", "parseFloat", "tryParseFloat32", "unquote"].contains s.2.1) = true := by decide +kernel
+      ["parseInt", "parseFloat", "tryParseFloat32", "unquote"].contains s.2.1) = true := gen_conversion_sites_pinned
 
 /-- what "the converter does not panic" means per converter -/
 def convOK (fn : String) (t : Martian.Lexer.Bytes) : Prop :=
@@ -649,7 +650,7 @@ now, and no two productions with different modelled actions share a text.  A
 changed action body is no longer recognised and breaks this. -/
 theorem lr_value_actions_recognised :
     (semTable.all fun p => Gen.mmProdBody.any fun q => q.2 == p.1) = true ∧
-    (semTable.all fun p => semTable.all fun q => p.1 != q.1 || p.2 == q.2) = true := by decide +kernel
+    (semTable.all fun p => semTable.all fun q => p.1 != q.1 || p.2 == q.2) = true := gen_lr_value_actions_recognised
 
 end lr
 
